@@ -390,6 +390,10 @@ func MetaDataKVHandler(resHolder *SearchResult, attrGetter AttributeGetter, addi
 				if i > 0 && (attr != fs[0].Header() || IsIntegerSearchOp(mch) != intPrimMatcher) {
 					continue
 				}
+				if mch == object.MatchNotPresent {
+					// the attribute is present in every element of its index
+					return false
+				}
 				var matches bool
 				if IsIntegerSearchOp(mch) {
 					matches = fs[i].AutoMatch || intBytesMatch(primDBVal, mch, fs[i].Raw)
